@@ -227,6 +227,8 @@ func (m *CPU) flush(pc int32) {
 	m.executeBus.Clean()
 	m.writeBus.Clean()
 	m.ctx.Flush()
+	// The execute units were reset: no line fetch is in flight anymore
+	m.memoryManagementUnit.pendings = nil
 }
 
 func (m *CPU) isEmpty() bool {
